@@ -642,6 +642,9 @@ def smtp_configs(tier):
         cfgs.append(dict(lmtp=lmtp, n=2, tls='starttls', tls_required=True, dev=1 if tier == 'quick' else 2))
         cfgs.append(dict(lmtp=lmtp, n=2, tls='starttls', tls_required=False, dev=1))
         cfgs.append(dict(lmtp=lmtp, n=2, tls='starttls', auth=True, dev=1))
+        # AUTH lines that offer mechanisms the client does not implement, only such mechanisms, or none at all
+        for line in ('AUTH GSSAPI PLAIN LOGIN', 'AUTH NTLM GSSAPI', 'AUTH', 'AUTH=PLAIN LOGIN'):
+            cfgs.append(dict(lmtp=lmtp, n=1, tls='starttls', auth=line, dev=1 if line.endswith('LOGIN') else 0))
         cfgs.append(dict(lmtp=lmtp, n=1, tls='immediate', dev=1))
         cfgs.append(dict(lmtp=lmtp, n=2, connect='refused', dev=0))
         cfgs.append(dict(lmtp=lmtp, n=2, tls='starttls', tls_required=True, client_tls_fail=True, dev=0))
